@@ -10,3 +10,8 @@ def build(run):
     run.verify_c([gij], registry={"get_dm": gdm})
     run.verify_c([mh])
     run.verify_c([D.dynmat_at_q_contract()], registry={"get_dynmat_ij": gij, "make_Hermitian": mh})
+    qc, dp, cs = D.get_q_cart_contract(), D.get_dielectric_part_contract(), D.charge_sum_contract()
+    run.verify_c([qc, dp, cs])
+    atq = D.dynmat_at_q_contract()
+    run.verify_c([D.dynmat_want_contract()], registry={"get_q_cart": qc, "get_dielectric_part": dp, "dym_get_charge_sum": cs,
+                                                        "dym_get_dynamical_matrix_at_q": atq})
